@@ -1,13 +1,65 @@
 """C14 — constants inhabit the type they report (+ the value layer of the codec, reused by C05).
 
-placeholder: translator first (rest of the module is written below in later edits)
+Case kinds (field "k" of a spec; "e" is a constant-building expression in the spec syntax of
+harness/bridge.py, which records the constructor / helper / std class used):
+
+  val    build the value with the real constructors; observe `type_()`, the serialised form
+         `_to_serial_root().model_dump_json()`, the value decoded back from it
+         (`sops.Value.model_validate(...).deserialize()`), and — spec cross-validation, not an
+         implementation observable — the verdict of the Python reference checker `j_inhabits` on the
+         serialised value and the serialised reported type.  Lean stream `val.all`.
+  load   `Const(v).port_kind(OutPort(node, 0))`, `dfg.load(v)`: type / signature / port kinds of the
+         LoadConst built, and the link const-out-0 -> load-in-0.  Lean stream `const.load`.
+  dec    a serialised value with 1-2 structural mutations (missing required member, unknown tag,
+         wrong JSON kind): accept / reject and the decoded value.  Lean stream `val.dec`.
+  inh    the reference checker and the Lean `inhabits` on a value against ANOTHER type.  Stream
+         `val.inhabits` (cross-validates the two transcriptions of the Rust rules; oracle-free).
+
+The oracle is written from the property text and the Rust rules (`SumType::check_type`,
+`Value::get_type/validate`, `SumType::new` normalisation), independently of the Lean model: it works
+on the JSON the implementation emits and on the recipe (which helper, which arguments).
 """
 from __future__ import annotations
 
+import copy
 import json
 from pathlib import Path
 
+import bridge as B
+from core import Failure
+from sexp import A, dumps
+
 PROP = "C14"
+TITLE = "Constants inhabit the type they report"
+LEAN_TARGETS = ["HugrVerif.Props.C14"]
+DRIVE_TARGETS = ["HugrVerif.Drive.Val"]
+RULE = (
+    "values are generated type-first: a random constant type to depth 5 (unit sums, general sums with 0-3 rows of 0-3 "
+    "types, function types, opaque / user extension types, std int<0..6> / float64 / string / array<n,t> / List<t> / "
+    "static_array<t> incl. nested arrays of sums), then an expression of that type built with a randomly chosen "
+    "applicable constructor (Sum / Tuple / Some / None_ / Left / Right / UnitSum / bool_value / Unit, IntVal (values "
+    "inside and outside the width's range) / FloatVal (incl. inf, nan, -0.0) / StringVal / ArrayVal / ListVal / "
+    "StaticArrayVal, Function over a Dfg built with the real builder, Extension constants with arbitrary JSON payloads); "
+    "40% of the cases then get one argument fault in a general Sum(tag, typ, vals) (tag out of range, field dropped / "
+    "added / of another type, row type changed, unit-sum written as general sum or back), so that both sides of the "
+    "conditional claim are exercised; widths outside 0..6 and non-copyable static-array elements (ValueError) are "
+    "included as mirrored behaviour without an oracle claim. Non-trivial = the expression has at least one nested "
+    "constructor (depth >= 2) or is a std collection / function constant; distinct by full spec."
+)
+TRUSTED = [
+    "translator harness/props/C14.py: the six std type definitions and extension names of std/_json_defs/*.json -> Gen/StdValDefs.lean",
+    "pydantic model_dump_json / model_validate are the encoder / structural decoder (floats: non-finite -> null, literal text otherwise)",
+    "the body document of a function constant and the inner signature of its root operation are taken from the real builder "
+    "(the document codec belongs to C02/C05); the model carries them as given",
+    "Python reference checker j_inhabits (harness/props/C14.py) transcribes the same Rust rules as Lean `Value.inhabits`; the two are "
+    "compared on every case (streams val.all, val.inhabits)",
+]
+ASSUMPTIONS = [
+    "general Sum(tag, typ, vals): the claim is conditional on well-formed arguments (tag in range, field types = tagged row)",
+    "helpers: fields are themselves well-typed constants; UnitSum(tag, size) with tag < size",
+    "typ of a general Sum is a sum type (anything else cannot be serialised by the implementation: outside the fragment)",
+    "nothing is claimed for integer widths outside 0..6, integer values outside the width's range, or non-finite floats (mirrored only)",
+]
 
 # ----------------------------------------------------------------------------- translation (tie b)
 
@@ -107,3 +159,970 @@ def translate(repo, gen_dir) -> list[str]:
     if not problems and (not out.exists() or out.read_text() != text):
         out.write_text(text)
     return problems
+
+
+# ============================================================================ reference (spec level)
+# Types as specs; `t_canon` identifies a unit sum with the general sum of that many empty rows (the
+# Rust side normalises sums when built or read: `SumType::new`; Python `Sum.__eq__` compares rows).
+
+
+def t_canon(t):
+    if isinstance(t, str):
+        return t
+    k = t[0]
+    if k == "@unit":
+        return ["@sum", [[] for _ in range(t[1])]]
+    if k == "@sum":
+        return ["@sum", [[t_canon(x) for x in row] for row in t[1]]]
+    if k == "@fn":
+        return ["@fn", [t_canon(x) for x in t[1]], [t_canon(x) for x in t[2]], list(t[3])]
+    if k == "@poly":
+        return ["@poly", t[1], [t_canon(x) for x in t[2]], [t_canon(x) for x in t[3]], list(t[4])]
+    if k == "@ext":
+        return ["@ext", t[1], [a_canon(a) for a in t[2]]]
+    if k == "@opaque":
+        return ["@opaque", t[1], t[2], [a_canon(a) for a in t[3]], t[4]]
+    return t
+
+
+def a_canon(a):
+    if a[0] == "@ty":
+        return ["@ty", t_canon(a[1])]
+    if a[0] == "@seq":
+        return ["@seq", [a_canon(x) for x in a[1]]]
+    return a
+
+
+def t_same(a, b):
+    return t_canon(a) == t_canon(b)
+
+
+def t_variant(t, tag):
+    if isinstance(t, list) and t[0] == "@unit":
+        return [] if 0 <= tag < t[1] else None
+    if isinstance(t, list) and t[0] == "@sum":
+        return t[1][tag] if 0 <= tag < len(t[1]) else None
+    return None
+
+
+def is_rowvar(t):
+    return isinstance(t, list) and t[0] == "@rowvar"
+
+
+def ref_type(e):
+    """The type the property says the expression's value has (from the recipe, not the implementation)."""
+    if e == "@unit":
+        return ["@unit", 1]
+    k = e[0]
+    tys = lambda xs: [ref_type(x) for x in xs]  # noqa: E731
+    if k == "@vsum":
+        return e[2]
+    if k == "@vtuple":
+        return ["@sum", [tys(e[1])]]
+    if k == "@some":
+        return ["@sum", [[], tys(e[1])]]
+    if k == "@none":
+        return ["@sum", [[], list(e[1])]]
+    if k == "@left":
+        return ["@sum", [tys(e[1]), list(e[2])]]
+    if k == "@right":
+        return ["@sum", [list(e[1]), tys(e[2])]]
+    if k == "@unitsum":
+        return ["@unit", e[2]]
+    if k == "@bool":
+        return ["@unit", 2]
+    if k == "@fndfg":
+        return ["@fn", list(e[1]), [e[1][i] for i in e[2]], list(e[3]) if len(e) > 3 else []]
+    if k == "@vfn":
+        return ["@fn", list(e[1]), list(e[2]), list(e[3])]
+    if k == "@vext":
+        return e[2]
+    if k == "@int":
+        return B.std_type("int", ["@nat", e[2]])
+    if k == "@float":
+        return B.std_type("float64")
+    if k == "@string":
+        return B.std_type("string")
+    if k == "@array":
+        return B.std_type("array", ["@nat", len(e[1])], ["@ty", e[2]])
+    if k == "@list":
+        return B.std_type("list", ["@ty", e[2]])
+    if k == "@sarray":
+        return B.std_type("static_array", ["@ty", e[2]])
+    raise ValueError(e)
+
+
+HELPER_TAG = {"@vtuple": 0, "@some": 1, "@none": 0, "@left": 0, "@right": 1}
+
+
+def ref_tag(e):
+    if e == "@unit":
+        return 0
+    k = e[0]
+    if k in HELPER_TAG:
+        return HELPER_TAG[k]
+    if k == "@unitsum":
+        return e[1]
+    if k == "@bool":
+        return 1 if e[1] else 0
+    if k == "@vsum":
+        return e[1]
+    return None
+
+
+def children(e):
+    if e == "@unit":
+        return []
+    k = e[0]
+    if k == "@vsum":
+        return e[3]
+    if k in ("@vtuple", "@some", "@left", "@array", "@list", "@sarray"):
+        return e[1]
+    if k == "@right":
+        return e[2]
+    return []
+
+
+def ref_wf(e):
+    """Well-formed arguments, recursively (the hypothesis of the claim): general sums have their tag
+    in range and fields of the tagged row's types; helper fields are well-formed; UnitSum tag < size;
+    an extension constant's type is a single type.  Elements of std collections are constants of
+    their own (the claim about them is `embedded completely`, checked separately)."""
+    if e == "@unit":
+        return True
+    k = e[0]
+    if k == "@vsum":
+        row = t_variant(e[2], e[1])
+        if row is None or len(row) != len(e[3]):
+            return False
+        if not all(t_same(ref_type(x), t) for x, t in zip(e[3], row)):
+            return False
+        return all(ref_wf(x) for x in e[3])
+    if k in ("@vtuple", "@some", "@left", "@right"):
+        return all(ref_wf(x) for x in children(e))
+    if k == "@unitsum":
+        return e[1] < e[2]
+    if k == "@vext":
+        return not is_rowvar(e[2])
+    return True
+
+
+def depth(e):
+    return 1 + max([depth(c) for c in children(e)], default=0)
+
+
+# ============================================================================ reference (JSON level)
+# `j_inhabits(value_json, type_json)`: the Rust rules on the serialised forms.
+
+
+def jt_norm(t):
+    """`SumType::new`: a general sum whose rows are all empty is the unit sum (size <= 255)."""
+    if not isinstance(t, dict):
+        return t
+    k = t.get("t")
+    if k == "Sum":
+        if t.get("s") == "Unit":
+            return {"t": "Sum", "s": "Unit", "size": t["size"]}
+        rows = [[jt_norm(x) for x in row] for row in t["rows"]]
+        if all(len(r) == 0 for r in rows) and len(rows) <= 255:
+            return {"t": "Sum", "s": "Unit", "size": len(rows)}
+        return {"t": "Sum", "s": "General", "rows": rows}
+    if k == "G":
+        return {"t": "G", "input": [jt_norm(x) for x in t["input"]], "output": [jt_norm(x) for x in t["output"]],
+                "runtime_reqs": list(t.get("runtime_reqs", []))}
+    if k == "Opaque":
+        return {**t, "args": [ja_norm(a) for a in t["args"]]}
+    return t
+
+
+def ja_norm(a):
+    if a.get("tya") == "Type":
+        return {**a, "ty": jt_norm(a["ty"])}
+    if a.get("tya") == "Sequence":
+        return {**a, "elems": [ja_norm(x) for x in a["elems"]]}
+    return a
+
+
+def j_variant(typ, tag):
+    """`SumType::get_variant`"""
+    if typ.get("s") == "Unit":
+        return [] if 0 <= tag < typ["size"] else None
+    rows = typ["rows"]
+    return rows[tag] if 0 <= tag < len(rows) else None
+
+
+def j_fn_type(doc):
+    """`mono_fn_type`: the signature of the root (a DFG's signature; a monomorphic FuncDefn's body)."""
+    root = doc["nodes"][0]
+    if root["op"] == "DFG":
+        s = root["signature"]
+    elif root["op"] == "FuncDefn" and not root["signature"]["params"]:
+        s = root["signature"]["body"]
+    else:
+        return None
+    return {"t": "G", "input": s["input"], "output": s["output"], "runtime_reqs": s.get("runtime_reqs", [])}
+
+
+def j_type_of(v):
+    """`Value::get_type`"""
+    k = v["v"]
+    if k == "Sum":
+        return {"t": "Sum", **{x: y for x, y in v["typ"].items() if x != "t"}}
+    if k == "Tuple":
+        return {"t": "Sum", "s": "General", "rows": [[j_type_of(x) for x in v["vs"]]]}
+    if k == "Function":
+        return j_fn_type(v["hugr"])
+    if k == "Extension":
+        return v["typ"]
+    raise ValueError(k)
+
+
+def j_validate(v):
+    """`Value::validate` on every nested value; for sums `SumType::check_type`."""
+    k = v["v"]
+    if k == "Sum":
+        row = j_variant(v["typ"], v["tag"])  # InvalidTag
+        if row is None:
+            return False
+        if any(t.get("t") == "R" for t in row):  # VariantNotConcrete
+            return False
+        if len(row) != len(v["vs"]):  # WrongVariantLength
+            return False
+        for t, x in zip(row, v["vs"]):  # InvalidValueType
+            if jt_norm(j_type_of(x)) != jt_norm(t):
+                return False
+        return all(j_validate(x) for x in v["vs"])
+    if k == "Tuple":
+        return all(j_validate(x) for x in v["vs"])
+    if k == "Function":
+        return j_fn_type(v["hugr"]) is not None
+    if k == "Extension":
+        return v["typ"].get("t") != "R"  # a value's type is a single type
+    return False
+
+
+def j_inhabits(v, t):
+    return j_validate(v) and jt_norm(j_type_of(v)) == jt_norm(t)
+
+
+# ============================================================================ generation
+
+
+def _subexprs(e, path=()):
+    yield path, e
+    for i, c in enumerate(children(e)):
+        yield from _subexprs(c, path + (i,))
+
+
+def _replace(e, path, new):
+    if not path:
+        return new
+    e = copy.copy(e)
+    k = e[0]
+    idx = 3 if k == "@vsum" else 2 if k == "@right" else 1
+    e[idx] = list(e[idx])
+    e[idx][path[0]] = _replace(e[idx][path[0]], path[1:], new)
+    return e
+
+
+def _generalise(e):
+    """Write a helper-built sum in its general `Sum(tag, typ, vals)` form (same value)."""
+    if e == "@unit" or e[0] in ("@vtuple", "@some", "@none", "@left", "@right", "@unitsum", "@bool"):
+        return ["@vsum", ref_tag(e), ref_type(e), list(children(e))]
+    return e
+
+
+def _fault(rng, e):
+    """One argument fault in one general sum somewhere in the expression (or the general form written
+    with the other spelling of a unit sum, which is NOT a fault)."""
+    sums = [(p, x) for p, x in _subexprs(e) if x == "@unit" or x[0] in ("@vsum", "@vtuple", "@some", "@none", "@left", "@right", "@unitsum", "@bool")]
+    if not sums:
+        return e
+    path, s = rng.choice(sums)
+    s = _generalise(s)
+    _, tag, typ, vals = s
+    vals = list(vals)
+    rows = [[] for _ in range(typ[1])] if typ[0] == "@unit" else [list(r) for r in typ[1]]
+    k = rng.randrange(8)
+    if k == 0:
+        tag = len(rows) + rng.randint(0, 2)
+    elif k == 1 and vals:
+        vals.pop(rng.randrange(len(vals)))
+    elif k == 2:
+        vals.insert(rng.randint(0, len(vals)), B.gen_value_of(rng, B.gen_vtype(rng, 1), 1))
+    elif k == 3 and vals:
+        i = rng.randrange(len(vals))
+        vals[i] = B.gen_value_of(rng, B.gen_vtype(rng, 1), 1)
+    elif k == 4 and tag < len(rows) and rows[tag]:
+        i = rng.randrange(len(rows[tag]))
+        rows[tag][i] = B.gen_vtype(rng, 1)
+        typ = ["@sum", rows]
+    elif k == 5 and len(rows) > 1:
+        # another row changes: still well-formed
+        j = rng.choice([i for i in range(len(rows)) if i != tag] or [0])
+        rows[j] = rows[j] + [B.gen_vtype(rng, 1)]
+        typ = ["@sum", rows]
+    elif k == 6 and tag < len(rows) and rows[tag]:
+        # a unit-sum element of the row written the other way: still well-formed
+        i = rng.randrange(len(rows[tag]))
+        t = rows[tag][i]
+        if isinstance(t, list) and t[0] == "@unit":
+            rows[tag][i] = ["@sum", [[] for _ in range(t[1])]]
+        elif isinstance(t, list) and t[0] == "@sum" and all(not r for r in t[1]):
+            rows[tag][i] = ["@unit", len(t[1])]
+        typ = ["@sum", rows]
+    else:
+        # the sum type itself written the other way
+        if typ[0] == "@unit":
+            typ = ["@sum", rows]
+        elif all(not r for r in rows):
+            typ = ["@unit", len(rows)]
+    return _replace(e, path, ["@vsum", tag, typ, vals])
+
+
+def _gen_expr(rng, depth):
+    e = B.gen_value(rng, depth)
+    if rng.random() < 0.4:
+        e = _fault(rng, e)
+    return e
+
+
+FIXED = [
+    "@unit", ["@bool", True], ["@bool", False], ["@vtuple", []], ["@some", []], ["@none", []],
+    ["@unitsum", 0, 1], ["@unitsum", 2, 2], ["@unitsum", 0, 0], ["@unitsum", 255, 256], ["@unitsum", 299, 300],
+    ["@some", [["@vtuple", []]]], ["@vtuple", [["@vtuple", []], "@unit"]],
+    ["@vsum", 0, ["@sum", [[["@sum", [[], []]]]]], [["@bool", True]]],
+    ["@vsum", 0, ["@sum", [[["@unit", 2]]]], [["@vsum", 1, ["@sum", [[], []]], []]]],
+    ["@vsum", 1, ["@sum", [[]]], []], ["@vsum", 0, ["@sum", []], []],
+    ["@left", [], []], ["@right", [], []],
+    ["@vext", "c", ["@rowvar", 0, "@A"], ["@json", None], []],
+    ["@vtuple", [["@vext", "c", ["@rowvar", 0, "@A"], ["@json", None], []]]],
+    ["@fndfg", [], [], []], ["@fndfg", ["@qubit", ["@unit", 2]], [1, 0], []], ["@fndfg", ["@usize"], [0], ["e", "ext.β"]],
+    ["@array", [], "@qubit"], ["@list", [], ["@fn", [], [], []]], ["@sarray", [], ["@unit", 2], ""],
+    ["@sarray", [], "@qubit", "n"],
+    ["@array", [["@array", [["@some", [["@int", 3, 2]]]], ["@sum", [[], [B.std_type("int", ["@nat", 2])]]]]],
+     B.std_type("array", ["@nat", 1], ["@ty", ["@sum", [[], [B.std_type("int", ["@nat", 2])]]]])],
+]
+
+
+def _widths():
+    out = []
+    for w in list(range(0, 7)) + [7, 9, -1, 64]:
+        for v in (0, 1, -1, 2 ** (2**w if 0 <= w <= 6 else 3) - 1, 2 ** (2**w if 0 <= w <= 6 else 3), -(2**63), 2**70):
+            out.append(["@int", v, w])
+    return out
+
+
+def _mutate_json(rng, j):
+    """1-2 structural mutations whose verdict does not depend on pydantic's lax scalar coercions."""
+    j = copy.deepcopy(j)
+
+    def nodes(x, acc):
+        if isinstance(x, dict) and "v" in x and isinstance(x.get("v"), str):
+            if x["v"] != "Function":
+                acc.append(x)
+            for key in ("vs",):
+                for y in x.get(key, []) if isinstance(x.get(key), list) else []:
+                    nodes(y, acc)
+        return acc
+
+    for _ in range(rng.randint(1, 2)):
+        ns = nodes(j, [])
+        if not ns:
+            break
+        n = rng.choice(ns)
+        k = rng.randrange(7)
+        keys = [x for x in n if x != "v"]
+        if k == 0 and keys:
+            del n[rng.choice(keys)]
+        elif k == 1:
+            n["v"] = rng.choice(["Sum", "Tuple", "Extension", "Nope", "Function"])
+        elif k == 2 and "vs" in n:
+            n["vs"] = {"a": 1}
+        elif k == 3 and "typ" in n:
+            n["typ"] = rng.choice([None, [], {"t": "Q"}, {"s": "Unit", "size": 2}, {"t": "Sum", "s": "Unit"}, {"t": "Sum", "s": "Other"}])
+        elif k == 4 and "value" in n:
+            n["value"] = rng.choice([None, {"c": "x"}, {"v": 1}, {"c": "x", "v": None, "extra": 0}, []])
+        elif k == 5:
+            n["extra_member"] = [1, 2]
+        elif k == 6 and "extensions" in n:
+            n["extensions"] = rng.choice([None, {"a": 1}, ["x", "y"]])
+    return j
+
+
+def cases(rng, tier):
+    if tier == "quick":
+        n_val, n_load, n_dec, n_inh = 5000, 700, 900, 700
+    elif tier == "thorough":
+        n_val, n_load, n_dec, n_inh = 150000, 15000, 25000, 15000
+    else:  # search: oracle-only hunt
+        n_val, n_load, n_dec, n_inh = 60000, 8000, 0, 0
+    for e in FIXED + _widths():
+        yield {"k": "val", "e": e}
+        yield {"k": "load", "e": e}
+    for i in range(n_val):
+        yield {"k": "val", "e": _gen_expr(rng, rng.choice([1, 2, 3, 3, 4, 5]))}
+    for i in range(n_load):
+        yield {"k": "load", "e": _gen_expr(rng, rng.choice([1, 2, 3, 4]))}
+    for i in range(n_dec):
+        e = B.gen_value(rng, rng.choice([1, 2, 3]))
+        try:
+            j = json.loads(B.build_value(e)._to_serial_root().model_dump_json())
+        except Exception:  # noqa: BLE001
+            continue
+        yield {"k": "dec", "j": _mutate_json(rng, j) if rng.random() < 0.85 else j}
+    for i in range(n_inh):
+        e = _gen_expr(rng, rng.choice([1, 2, 3]))
+        r = rng.random()
+        if r < 0.5:
+            # the reported type with one place rewritten
+            t = ref_type(e)
+            t = _perturb_type(rng, t)
+        else:
+            t = B.gen_vtype(rng, 2)
+        yield {"k": "inh", "e": e, "t": t}
+
+
+def _perturb_type(rng, t):
+    if isinstance(t, list) and t[0] == "@unit":
+        return rng.choice([["@sum", [[] for _ in range(t[1])]], ["@unit", t[1] + 1], t])
+    if isinstance(t, list) and t[0] == "@sum":
+        rows = [list(r) for r in t[1]]
+        if rows and rng.random() < 0.7:
+            i = rng.randrange(len(rows))
+            if rows[i] and rng.random() < 0.7:
+                j = rng.randrange(len(rows[i]))
+                rows[i][j] = _perturb_type(rng, rows[i][j])
+            else:
+                rows[i] = rows[i] + ["@qubit"]
+            return ["@sum", rows]
+        if all(not r for r in rows):
+            return ["@unit", len(rows)]
+        return ["@sum", rows + [[]]]
+    return rng.choice([t, t, "@qubit"])
+
+
+# ============================================================================ implementation adapter
+
+
+def _dump(obj):
+    return json.loads(obj.model_dump_json())
+
+
+def _build(e):
+    """-> (value, None) | (None, observation)"""
+    try:
+        return B.build_value(e), None
+    except ValueError:
+        return None, "(error ValueError)"
+    except Exception:  # noqa: BLE001
+        return None, "(error Exception)"
+
+
+def _ok(x):
+    return [A("ok"), x]
+
+
+def _err(s):
+    return [A("error"), A(s)]
+
+
+def _obs_val(e):
+    import hugr._serialization.ops as sops
+
+    v, bad = _build(e)
+    if v is None:
+        return bad
+    try:
+        t = v.type_()
+        tsx = B.spec_to_sx(B.type_to_spec(t))
+    except Exception:  # noqa: BLE001
+        return "(error Exception)"
+    j = None
+    try:
+        j = _dump(v._to_serial_root())
+        enc = _ok(B.cjson_sx(j))
+    except Exception:  # noqa: BLE001
+        enc = _err("enc")
+    if j is None:
+        rt = _err("enc")
+        inh = A("-")
+    else:
+        try:
+            back = sops.Value.model_validate(j).deserialize()
+            rt = _ok(B.value_to_sx(B.value_to_spec(back, body=False)))
+        except Exception:  # noqa: BLE001
+            rt = _err("validation")
+        try:
+            tj = _dump(t._to_serial_root())
+            inh = A("true" if j_inhabits(j, tj) else "false")
+        except Exception:  # noqa: BLE001
+            inh = A("-")
+    return dumps([A("all"), [A("type"), tsx], [A("enc"), enc], [A("rt"), rt], [A("inh"), inh]])
+
+
+def _kind_sx(k):
+    from hugr import tys
+
+    if isinstance(k, tys.ConstKind):
+        return [A("const"), B.spec_to_sx(B.type_to_spec(k.ty))]
+    if isinstance(k, tys.ValueKind):
+        return [A("value"), B.spec_to_sx(B.type_to_spec(k.ty))]
+    return A(type(k).__name__)
+
+
+def _try_kind(f):
+    from hugr.ops import IncompleteOp, InvalidPort
+
+    try:
+        return _kind_sx(f())
+    except InvalidPort:
+        return A("InvalidPort")
+    except IncompleteOp:
+        return A("IncompleteOp")
+    except Exception:  # noqa: BLE001
+        return A("Exception")
+
+
+def _load(e):
+    """Run `dfg.load(value)`; -> dict of the real objects or an observation string."""
+    from hugr import ops
+    from hugr.build.dfg import Dfg
+
+    v, bad = _build(e)
+    if v is None:
+        return bad
+    d = Dfg()
+    try:
+        n_before = len(d.hugr)
+        load_node = d.load(v)
+    except Exception:  # noqa: BLE001
+        return "(error Exception)"
+    h = d.hugr
+    load_op = h[load_node].op
+    consts = [n for n in h if isinstance(h[n].op, ops.Const)]
+    return {"v": v, "h": h, "load_node": load_node, "load_op": load_op, "consts": consts, "new": len(h) - n_before}
+
+
+def _obs_load(e):
+    from hugr.hugr.node_port import InPort, OutPort
+
+    r = _load(e)
+    if isinstance(r, str):
+        return r
+    h, load_node, load_op = r["h"], r["load_node"], r["load_op"]
+    if len(r["consts"]) != 1:
+        return "(error no-unique-const)"
+    cn = r["consts"][0]
+    cop = h[cn].op
+    try:
+        ty = B.spec_to_sx(B.type_to_spec(load_op.type_))
+        sig = load_op.outer_signature()
+        sigsx = [A("sig"), [B.spec_to_sx(B.type_to_spec(x)) for x in sig.input], [B.spec_to_sx(B.type_to_spec(x)) for x in sig.output]]
+    except Exception:  # noqa: BLE001
+        ty, sigsx = A("IncompleteOp"), A("IncompleteOp")
+    links = [(s.offset, t.offset) for s, ts in h.outgoing_links(cn) for t in ts if t.node == load_node]
+    link = [A("link"), links[0][0], links[0][1]] if len(links) == 1 else [A("link"), A("none")]
+    return dumps([
+        A("load"),
+        [A("constkind"), _try_kind(lambda: cop.port_kind(OutPort(cn, 0)))],
+        [A("type"), ty], sigsx,
+        [A("in"), _try_kind(lambda: load_op.port_kind(InPort(load_node, 0)))],
+        [A("out"), _try_kind(lambda: load_op.port_kind(OutPort(load_node, 0)))],
+        link,
+        [A("badconst"), _try_kind(lambda: cop.port_kind(OutPort(cn, 1))), _try_kind(lambda: cop.port_kind(InPort(cn, 0)))],
+        [A("badload"), _try_kind(lambda: load_op.port_kind(InPort(load_node, 1))), _try_kind(lambda: load_op.port_kind(OutPort(load_node, 1)))],
+    ])
+
+
+def _obs_dec(j):
+    import hugr._serialization.ops as sops
+    from pydantic import ValidationError
+
+    try:
+        m = sops.Value.model_validate(j)
+    except ValidationError:
+        return "(error validation)"
+    except Exception:  # noqa: BLE001
+        return "(error Exception)"
+    try:
+        back = m.deserialize()
+        return dumps(_ok(B.value_to_sx(B.value_to_spec(back, body=False))))
+    except ValidationError:
+        return "(error validation)"
+    except Exception:  # noqa: BLE001
+        return "(error Exception)"
+
+
+def _obs_inh(e, t):
+    v, bad = _build(e)
+    if v is None:
+        return bad
+    try:
+        j = _dump(v._to_serial_root())
+        tj = _dump(B.build_type(t)._to_serial_root())
+    except Exception:  # noqa: BLE001
+        return "(error Exception)"
+    return dumps([A("inh"), A("true" if j_inhabits(j, tj) else "false")])
+
+
+def run_impl(spec):
+    k = spec["k"]
+    if k == "val":
+        return _obs_val(spec["e"])
+    if k == "load":
+        return _obs_load(spec["e"])
+    if k == "dec":
+        return _obs_dec(spec["j"])
+    if k == "inh":
+        return _obs_inh(spec["e"], spec["t"])
+    raise ValueError(k)
+
+
+def payload(spec):
+    k = spec["k"]
+    try:
+        if k == "val":
+            return "val.all", B.value_sexp(spec["e"])
+        if k == "load":
+            return "const.load", B.value_sexp(spec["e"])
+        if k == "dec":
+            return "val.dec", dumps(B.cjson_sx(spec["j"]))
+        if k == "inh":
+            return "val.inhabits", dumps([B.value_to_sx(spec["e"]), B.spec_to_sx(spec["t"])])
+    except Exception:  # noqa: BLE001  (the real builder of a function recipe failed: no model stream)
+        return None
+    raise ValueError(k)
+
+
+def compare(spec, impl_obs, model_obs):
+    if impl_obs == model_obs:
+        return True
+    if spec["k"] == "inh" and impl_obs.startswith("(error"):
+        # the Lean side judges the model value; when the implementation cannot serialise there is nothing to compare
+        return True
+    return False
+
+
+# ============================================================================ oracle
+
+SITE = {
+    "@vsum": "val.Sum", "@vtuple": "val.Tuple", "@some": "val.Some", "@none": "val.None_", "@left": "val.Left",
+    "@right": "val.Right", "@unitsum": "val.UnitSum", "@bool": "val.bool_value", "@vfn": "val.Function",
+    "@fndfg": "val.Function", "@vext": "val.Extension", "@int": "std.int.IntVal", "@float": "std.float.FloatVal",
+    "@string": "std.prelude.StringVal", "@array": "std.collections.array.ArrayVal",
+    "@list": "std.collections.list.ListVal", "@sarray": "std.collections.static_array.StaticArrayVal",
+}
+
+
+def _site(e):
+    return "val.Unit" if e == "@unit" else SITE[e[0]]
+
+
+def _spec_to_tjson(t):
+    """Type spec -> the JSON the specification's writer gives (written here, not via hugr-py), for the types
+    that occur in std constants' arguments; falls back to None for forms not needed."""
+    return None
+
+
+STD_KEY = {"@int": "int", "@float": "float64", "@string": "string", "@array": "array", "@list": "list", "@sarray": "static_array"}
+
+
+def _check_std(e, v, j, fails):
+    """Std constants: the serialised type is the matching std type (checked against the extension file),
+    the defining extension is listed, the elements are embedded completely with the element type."""
+    site = _site(e)
+    key = STD_KEY[e[0]]
+    _, td, ext_name = B.std_def(key)
+    typ = j.get("typ", {})
+    if j.get("v") != "Extension" or typ.get("t") != "Opaque" or typ.get("extension") != ext_name or typ.get("id") != td["name"]:
+        fails.append(Failure(site, "std-type-wrong-definition", json.dumps(typ)[:300]))
+        return
+    args = typ.get("args", [])
+    # arguments match the definition's parameters in number and kind
+    want_kind = {"BoundedNat": "BoundedNat", "Type": "Type", "String": "String"}
+    if len(args) != len(td["params"]) or any(a.get("tya") != want_kind.get(p["tp"]) for a, p in zip(args, td["params"])):
+        fails.append(Failure(site, "std-type-args-mismatch-definition", json.dumps(args)[:300]))
+        return
+    if ext_name not in j.get("extensions", []):
+        fails.append(Failure(site, "std-defining-extension-not-listed", json.dumps(j.get("extensions"))))
+    k = e[0]
+    if k == "@int":
+        if args[0].get("n") != e[2]:
+            fails.append(Failure(site, "int-width", f"reported {args[0].get('n')} for width {e[2]}"))
+        return
+    if k in ("@float", "@string"):
+        return
+    # collections
+    elems = e[1]
+    try:
+        ety = _dump(B.build_type(e[2])._to_serial_root())
+        ejs = [_dump(B.build_value(x)._to_serial_root()) for x in elems]
+    except Exception:  # noqa: BLE001
+        return
+    if k == "@array":
+        if args[0].get("n") != len(elems):
+            fails.append(Failure(site, "array-size", f"size {args[0].get('n')} for {len(elems)} elements"))
+        targ = args[1]
+    else:
+        targ = args[0]
+    if jt_norm(targ.get("ty")) != jt_norm(ety):
+        fails.append(Failure(site, "collection-element-type", json.dumps(targ)[:300]))
+    payload = j.get("value", {}).get("v")
+    inner = payload.get("value") if k == "@sarray" and isinstance(payload, dict) else payload
+    if not isinstance(inner, dict) or "values" not in inner or "typ" not in inner:
+        fails.append(Failure(site, "payload-shape", json.dumps(payload)[:300]))
+        return
+    if inner["typ"] != ety:
+        fails.append(Failure(site, "payload-element-type", json.dumps(inner["typ"])[:300]))
+    if not isinstance(inner["values"], list) or len(inner["values"]) != len(elems):
+        fails.append(Failure(site, "payload-element-count", f"{len(inner.get('values', []))} for {len(elems)}"))
+        return
+    import hugr._serialization.ops as sops
+
+    for i, (got, want) in enumerate(zip(inner["values"], ejs)):
+        if B.cjson(got) != B.cjson(want):
+            fails.append(Failure(site, "payload-element-not-the-value", f"element {i}"))
+            return
+        try:  # complete: decodes on its own as a value
+            sops.Value.model_validate(got).deserialize()
+        except Exception as ex:  # noqa: BLE001
+            fails.append(Failure(site, "payload-element-incomplete", f"element {i}: {type(ex).__name__}"))
+            return
+
+
+def _check_node(e, fails):
+    """Claims about ONE constructor application (children are checked on their own)."""
+    import hugr._serialization.ops as sops
+
+    site = _site(e)
+    v, bad = _build(e)
+    if v is None:
+        return
+    k = "@unit" if e == "@unit" else e[0]
+    try:
+        t = v.type_()
+        tspec = B.type_to_spec(t)
+        j = _dump(v._to_serial_root())
+        tj = _dump(t._to_serial_root())
+    except Exception:  # noqa: BLE001
+        return  # cannot be serialised (e.g. typ of a general Sum is not a sum): outside the claim
+    want_t = ref_type(e)
+    # (1) the reported type is the type the serialised form inhabits  <=>  the arguments are well-formed
+    wf = ref_wf(e)
+    inh = j_inhabits(j, tj)
+    if wf and not inh:
+        fails.append(Failure(site, "reported-type-not-inhabited", f"type {json.dumps(tj)[:200]}"))
+    if not wf and inh and k == "@vsum":
+        fails.append(Failure(site, "ill-formed-arguments-accepted", ""))
+    # (2) helpers build the corresponding sum type with the right tag
+    if k in ("@vtuple", "@some", "@none", "@left", "@right", "@unitsum", "@bool", "@unit"):
+        if not t_same(tspec, want_t):
+            fails.append(Failure(site, "helper-wrong-sum-type", f"{B.spec_sexp(tspec)[:200]} expected {B.spec_sexp(want_t)[:200]}"))
+        tag = getattr(v, "tag", None)
+        if tag != ref_tag(e):
+            fails.append(Failure(site, "helper-wrong-tag", f"{tag} expected {ref_tag(e)}"))
+        if k != "@vtuple":
+            if j.get("v") != "Sum" or j.get("tag") != ref_tag(e):
+                fails.append(Failure(site, "helper-serialised-tag", json.dumps(j)[:200]))
+        vals = getattr(v, "vals", [])
+        if len(vals) != len(children(e)):
+            fails.append(Failure(site, "helper-fields", f"{len(vals)} fields for {len(children(e))}"))
+    # (3) a function constant has the signature of its body
+    if k in ("@fndfg", "@vfn"):
+        if tspec != want_t:
+            fails.append(Failure(site, "function-type-not-body-signature", f"{B.spec_sexp(tspec)[:200]}"))
+        ft = j_fn_type(j.get("hugr", {"nodes": [{"op": "?"}]}))
+        if ft is None or jt_norm(ft) != jt_norm(tj):
+            fails.append(Failure(site, "function-type-not-serialised-body-signature", ""))
+    # (4) std constants
+    if k in STD_KEY:
+        if not t_same(tspec, want_t):
+            fails.append(Failure(site, "std-wrong-type", f"{B.spec_sexp(tspec)[:200]} expected {B.spec_sexp(want_t)[:200]}"))
+        _check_std(e, v, j, fails)
+    # (5) general Sum / Extension report what they were given
+    if k in ("@vsum", "@vext") and tspec != want_t:
+        fails.append(Failure(site, "reported-type-not-the-given-one", ""))
+    # (6) codec: the decoded value re-encodes to the same document and reports the same type
+    try:
+        back = sops.Value.model_validate(j).deserialize()
+        j2 = _dump(back._to_serial_root())
+        tj2 = _dump(back.type_()._to_serial_root())
+    except Exception as ex:  # noqa: BLE001
+        fails.append(Failure(site, "serialised-form-does-not-decode", type(ex).__name__))
+        return
+    if k not in ("@fndfg", "@vfn"):
+        if B.cjson(j2) != B.cjson(j):
+            fails.append(Failure(site, "roundtrip-changes-encoding", ""))
+    if jt_norm(tj2) != jt_norm(tj):
+        fails.append(Failure(site, "roundtrip-changes-type", ""))
+
+
+def _oracle_val(e):
+    fails: list[Failure] = []
+    v, bad = _build(e)
+    if v is None:
+        return fails
+    seen = set()
+    for _, x in _subexprs(e):
+        key = json.dumps(x, sort_keys=True)
+        if key in seen:
+            continue
+        seen.add(key)
+        _check_node(x, fails)
+        if fails:
+            break
+    return fails
+
+
+def _oracle_load(e):
+    from hugr import ops, tys
+    from hugr.hugr.node_port import InPort, OutPort
+
+    fails: list[Failure] = []
+    r = _load(e)
+    if isinstance(r, str):
+        return fails
+    h, load_node, load_op, v = r["h"], r["load_node"], r["load_op"], r["v"]
+    try:
+        want = B.type_to_spec(v.type_())
+    except Exception:  # noqa: BLE001
+        return fails
+    if not t_same(want, ref_type(e)) and (e == "@unit" or e[0] not in ("@vsum", "@vext")):
+        return fails  # reported type itself wrong: the `val` cases report it
+    if len(r["consts"]) != 1 or not isinstance(load_op, ops.LoadConst):
+        fails.append(Failure("DfBase.load", "no-const-or-loadconst", ""))
+        return fails
+    cn = r["consts"][0]
+    cop = h[cn].op
+    if cop.val is not v and cop.val != v:
+        fails.append(Failure("DfBase.load", "const-holds-another-value", ""))
+    try:
+        ck = cop.port_kind(OutPort(cn, 0))
+    except Exception as ex:  # noqa: BLE001
+        fails.append(Failure("Const.port_kind", "raises", type(ex).__name__))
+        return fails
+    if not isinstance(ck, tys.ConstKind) or B.type_to_spec(ck.ty) != want:
+        fails.append(Failure("Const.port_kind", "static-port-not-the-reported-type", repr(ck)[:200]))
+    try:
+        lt = B.type_to_spec(load_op.type_)
+        sig = load_op.outer_signature()
+        ok = load_op.port_kind(OutPort(load_node, 0))
+        ik = load_op.port_kind(InPort(load_node, 0))
+    except Exception as ex:  # noqa: BLE001
+        fails.append(Failure("DfBase.load", "loadconst-incomplete", type(ex).__name__))
+        return fails
+    if lt != want:
+        fails.append(Failure("DfBase.load", "loadconst-type-not-the-reported-type", B.spec_sexp(lt)[:200]))
+    if [B.type_to_spec(x) for x in sig.output] != [want] or list(sig.input):
+        fails.append(Failure("LoadConst.outer_signature", "does-not-produce-the-type", ""))
+    if not isinstance(ok, tys.ValueKind) or B.type_to_spec(ok.ty) != want:
+        fails.append(Failure("LoadConst.port_kind", "output-not-a-value-of-the-type", repr(ok)[:200]))
+    if not isinstance(ik, tys.ConstKind) or B.type_to_spec(ik.ty) != want:
+        fails.append(Failure("LoadConst.port_kind", "static-input-not-the-type", repr(ik)[:200]))
+    links = [(s.offset, t.node, t.offset) for s, ts in h.outgoing_links(cn) for t in ts]
+    if links != [(0, load_node, 0)]:
+        fails.append(Failure("DfBase.load", "const-not-linked-to-load", repr(links)))
+    # the serialised nodes agree
+    try:
+        doc = _dump(h._to_serial())
+        cj = next(n for n in doc["nodes"] if n["op"] == "Const")
+        lj = next(n for n in doc["nodes"] if n["op"] == "LoadConstant")
+        if not j_inhabits(cj["v"], lj["datatype"]) and ref_wf(e):
+            fails.append(Failure("DfBase.load", "serialised-constant-does-not-inhabit-loaded-type", ""))
+    except StopIteration:
+        fails.append(Failure("DfBase.load", "serialised-nodes-missing", ""))
+    except Exception:  # noqa: BLE001
+        pass
+    return fails
+
+
+def oracle(spec):
+    k = spec["k"]
+    if k == "val":
+        return _oracle_val(spec["e"])
+    if k == "load":
+        return _oracle_load(spec["e"])
+    return []
+
+
+# ============================================================================ bookkeeping
+
+
+def nontrivial(spec, obs):
+    if obs.startswith("(error"):
+        return False
+    k = spec["k"]
+    if k in ("val", "load", "inh"):
+        e = spec["e"]
+        return depth(e) >= 2 or (e != "@unit" and e[0] in ("@fndfg", "@array", "@list", "@sarray"))
+    return True
+
+
+def stats(spec, obs, counters):
+    k = spec["k"]
+    counters[f"kind.{k}"] += 1
+    if k == "dec":
+        counters["dec.accepted" if obs.startswith("(ok") else "dec.rejected"] += 1
+        return
+    e = spec["e"]
+    counters[f"{k}.depth.{min(depth(e), 7)}"] += 1
+    if obs.startswith("(error"):
+        counters[f"{k}.{obs}"] += 1
+    if k == "val":
+        for _, x in _subexprs(e):
+            counters["ctor." + ("@unit" if x == "@unit" else x[0])] += 1
+            if x != "@unit" and x[0] == "@int":
+                counters[f"int.width.{x[2] if 0 <= x[2] <= 6 else 'outside'}"] += 1
+        counters["val.wellformed" if ref_wf_all(e) else "val.illformed"] += 1
+        if "(inh true)" in obs:
+            counters["val.inhabits.true"] += 1
+        elif "(inh false)" in obs:
+            counters["val.inhabits.false"] += 1
+    if k == "inh":
+        counters["inh.true" if "true" in obs else "inh.false"] += 1
+
+
+def ref_wf_all(e):
+    return all(ref_wf(x) for _, x in _subexprs(e))
+
+
+def shrink(spec, pred):
+    """Tree shrinking: replace the expression by a sub-expression, drop children, simplify payloads."""
+    if spec["k"] not in ("val", "load"):
+        return spec
+    cur = spec
+    improved = True
+    budget = 200
+    while improved and budget > 0:
+        improved = False
+        e = cur["e"]
+        cands = []
+        for path, x in _subexprs(e):
+            if path:
+                cands.append(x)  # a sub-expression alone
+        for path, x in _subexprs(e):
+            cs = children(x)
+            for i in range(len(cs)):
+                if x[0] in ("@vtuple", "@some", "@list", "@sarray"):
+                    y = copy.copy(x)
+                    y[1] = cs[:i] + cs[i + 1:]
+                    cands.append(_replace(e, path, y))
+            if x != "@unit" and x[0] == "@vext" and x[3][1] is not None:
+                cands.append(_replace(e, path, ["@vext", "c", x[2], ["@json", None], []]))
+        cands.sort(key=lambda c: len(json.dumps(c)))
+        for c in cands:
+            budget -= 1
+            if budget <= 0:
+                break
+            if len(json.dumps(c)) >= len(json.dumps(e)):
+                continue
+            s = {**cur, "e": c}
+            try:
+                if pred(s):
+                    cur = s
+                    improved = True
+                    break
+            except Exception:  # noqa: BLE001
+                continue
+    return cur
